@@ -10,9 +10,16 @@ declare -A CHECKS=(
   [B4-mkdirall]="C16"
   [B5-order]="C16 C15"
   [B6-bufio]="C14 C16"
+  [Z-C13-refactor]="C13 C18 C14"
+  [Z-C14-refactor]="C14 C16 C15"
+  [Z-C15-refactor]="C15 C17 C19"
+  [Z-C16-refactor]="C16 C15 C14"
+  [Z-C17-refactor]="C17 C14"
+  [Z-C18-refactor]="C18 C13 C14"
+  [Z-C19-refactor]="C19 C15 C16"
 )
 rc=0
-for id in $(ls benign | sed 's/\.diff$//'); do
+for id in $(ls benign | grep '\.diff$' | sed 's/\.diff$//'); do
   for prop in ${CHECKS[$id]}; do
     out="$(tools/try_mutant.sh "$PWD/benign/$id.diff" "$prop" quick 2>&1)"
     code="$(echo "$out" | sed -n 's/^try_mutant: check .* exit=//p')"
